@@ -32,6 +32,14 @@ NOTES = {
  'S4-C12': "second change for C12 (literal MATCH patterns compared with HasPrefix). Missed at first (0/698): every pattern of the check was anchored or matched at position 0. Added unanchored literals, classes and alternatives. Caught since (92/231).",
  'S4-C14': "second change for C14 (Publish releases the registry lock before it writes). Missed at first (0/849): the oracle had no frame-order rule (a message read after the UNSUBSCRIBE acknowledgement on the same connection) and subscriptions rarely changed during a PUBLISH. Added the rule (acknowledgement frames are stamped by the connection reader) and a churn variant. Caught since (85/359 message-after-unsubscribe).",
  'S4-C15': "second change for C15 (multi-key Delete drops keys through stale slice pointers). Caught at once (75/134).",
+ 'S5-C08': "second change for C08 (the lock timeout is turned into an absolute expiry when Lock is called, so a Lock that had to wait holds the lock for less than its timeout, or not at all). Missed at first (0/116): the oracle counted a timed hold from the invocation of Lock, which is exactly what the change does. The hold is now counted from the acquisition (at most one round trip before Lock returned). Caught since (35 of ~119: holder-lost-lock, mutual-exclusion).",
+ 'S5-C10': "second change for C10 (LRU eviction inside Put releases the fragment lock for its network calls). Missed at first (0/479): all Puts of the check came from one sequential client. Added a burst phase (2-6 writers insert fresh keys concurrently, bounds checked when they are done). Caught since (54 runs: maxkeys-exceeded, maxinuse-exceeded).",
+ 'S5-C11': "second change for C11 (Reset before the table is unregistered: the wrong table loses its registration). Caught at once (scan-duplicate, scan-yields-absent-key).",
+ 'S5-C16': "second change for C16 (DM.PUT option loop reads past the end when a later option has no value). Caught at once (106/127 member-crash) by the single-substitution sweep.",
+ 'S5-C17': "second change for C17 (table.Encode ships only the first inuse bytes: truncated when the table contains garbage). Missed at first (0/175): every key was written once before the migration. Added overwrites and delete/rewrite of part of the keys before the join. Caught since (value-does-not-decode, value-differs after-join).",
+ 'S5-C18': "second change for C18 (Put keeps the caller's slice and encodes it in the asynchronous replication goroutine). Missed at first (0/631): the check never used asynchronous replication. Added an async variant with embedded Puts on the owner and a census of all copies after the caller scribbled over its buffer; ordering effects of asynchronous replication (an older value on a backup) are deliberately not judged by C18. Caught since (61/682 put-buffer-aliased).",
+ 'S5-C19': "second change for C19 (Destroy swallows transport errors of the per-member call). Missed at first (0/317): no fault was ever injected during a Destroy. Added a variant in which the member running Destroy cannot reach another member (refused or black-holed): Destroy must report the failure or everything must be gone; a second Destroy after the heal must succeed. Also fixed a false alarm of the check this exposed (a ttl running out before the final scan of the other DMap). Caught since (56/217 key-survived-destroy).",
+ 'S5-C20': "second change for C20 (backup fragments are never compacted). Caught at once (allocation-unbounded / garbage-above-threshold on backup).",
  'S3-C02': "second, independent change for C02 (fragment.Move releases the fragment lock while the table travels). Missed by C02 at first (caught by C03): deletes rarely coincided with the re-replication moves after a stop. Added the sweeper variant (slow network, 4 clients deleting their own keys one by one through the failure, 7 partitions). Caught by C02 since, rarely (3 of 192 runs); C03 catches it more often (6 of 246).",
  'S3-C03': "second, independent change for C03 (fragment.Move drops the table although the target refused it). Caught at once (key-lost).",
  'S3-C13': "second, independent change for C13 (stale backup owners when the cluster shrinks to one member). Caught at once (not-stabilised).",
